@@ -297,6 +297,8 @@ def run_case(case, res):
         if tt == 1:
             check_reduce(res, U, p, gen2, None, "frac", tt, "none", "method", "direct")
             check_reduce(res, U, p, gen, gw, "frac", tt, "default", "method", "direct")
+            # a rational curve whose weighted numerator is constant (P_i = 1/w_i): only the weight function resists
+            check_reduce(res, U, p, [1 / w for w in gw], gw, "frac", tt, "default", "method", "direct")
             check_reduce(res, U, p, gen, gw, "frac", tt, "none", "method", "direct")
             check_reduce(res, U, p, gen, None, "float", tt, "default", "method", "direct")
             check_reduce(res, U, p, gen, None, "float", tt, "none", "method", "direct")
